@@ -30,7 +30,7 @@ type c19Case struct {
 func init() {
 	engine.Register(&engine.Check{
 		ID: "C19", Level: "model_checking",
-		Rule:   "decoder as a state machine: DFS over all line sequences of depth <=3 (quick) / <=4 (thorough) after each of 6 file openings (no A record, A first, noise then A, XOFF/BOM before A, ...), alphabet generated RELATIVE TO THE CURRENT STATE of a Go reference model of the record rules: H DTE {valid, short, non-digit, DATE: form, day/month edges, invalid day/month} and other H records, I records {contiguous LAD/LOD/TDS/other extension of width 1-3, two extensions, non-contiguous, stop<start, count larger than supplied, negative count, truncated, non-digit}, B records {valid at the current length, earlier time of day, one short, over-long, 60000 milli-minutes, 90/180 degrees, bad hemisphere, negative altitude}, blank and other records; after every sequence the real igc.Read result (fixes, headers, number and kind of errors) must equal the model's; plus every truncation and every single-column substitution (6 characters) of the B record in each of 6 extension states; the reader-split sweep; encoder round trip for every combination of 7 longitudes x 5 latitudes x 6 altitudes, 1..3 fixes with time deltas {0,1,59,86399,86400,86401 s, 28,31,365,366,730 days} from 12 boundary instants, and EVERY calendar day 1970-01-01..2069-12-31 (quick: every 7th day + boundaries) with fixes at 00:00:00, 23:59:59 and across midnight. states = distinct model states reached Also: every whole degree of latitude/longitude approached from both sides at distances around 1/60000 and 1/120000 degree.",
+		Rule:   "decoder as a state machine: DFS over all line sequences of depth <=3 (quick; <=4 after the plain 'A record first' opening) / <=4 (thorough) after each of 6 file openings (no A record, A first, noise then A, XOFF/BOM before A, ...), alphabet generated RELATIVE TO THE CURRENT STATE of a Go reference model of the record rules: H DTE {valid, short, non-digit, DATE: form, day/month edges, invalid day/month} and other H records, I records {contiguous LAD/LOD/TDS/other extension of width 1-3, two extensions, non-contiguous, stop<start, count larger than supplied, negative count, truncated, non-digit}, B records {valid at the current length, earlier time of day, one short, over-long, 60000 milli-minutes, 90/180 degrees, bad hemisphere, negative altitude}, blank and other records; after every sequence the real igc.Read result (fixes, headers, number and kind of errors) must equal the model's; plus every truncation and every single-column substitution (6 characters) of the B record in each of 6 extension states; the reader-split sweep; encoder round trip for every combination of 7 longitudes x 5 latitudes x 6 altitudes, 1..3 fixes with time deltas {0,1,59,86399,86400,86401 s, 28,31,365,366,730 days} from 12 boundary instants, and EVERY calendar day 1970-01-01..2069-12-31 with fixes at 00:00:00, 23:59:59 and across midnight. states = distinct model states reached Also: every whole degree of latitude/longitude approached from both sides at distances around 1/60000 and 1/120000 degree.",
 		Run:    c19Run,
 		Replay: func(c *engine.Ctx, kind string, raw json.RawMessage) { c19Exec(c, decodeCase[c19Case](raw), nil) },
 		Assumptions: []string{
@@ -252,16 +252,23 @@ func c19Run(c *engine.Ctx) {
 	}
 	c.Note("max_depth_after_opening", depth)
 	// (A) conformance DFS
-	type node struct{ lines []string }
+	type node struct {
+		lines []string
+		depth int
+	}
 	var roots []node
-	for _, op := range c19Openings() {
+	for oi, op := range c19Openings() {
+		rootDepth := depth
+		if oi == 1 && !c.Thorough() {
+			rootDepth = depth + 1 // quick: one level deeper after the plain "A record first" opening
+		}
 		m := ref.NewIGCModel()
 		for _, l := range op {
 			m.Line(l)
 		}
 		c19Exec(c, c19Case{Mode: "lines", Lines: op}, nil)
 		for _, l := range c19Alphabet(m) {
-			roots = append(roots, node{append(append([]string{}, op...), l)})
+			roots = append(roots, node{append(append([]string{}, op...), l), rootDepth})
 		}
 	}
 	seen := map[string]struct{}{}
@@ -279,7 +286,7 @@ func c19Run(c *engine.Ctx) {
 			}
 			c.Count("transitions", 1)
 			c19Exec(c, c19Case{Mode: "lines", Lines: lines, CRLF: len(lines)%2 == 0}, note)
-			if d == depth {
+			if d == roots[i].depth {
 				return
 			}
 			m := ref.NewIGCModel()
@@ -360,10 +367,7 @@ func c19Run(c *engine.Ctx) {
 			}
 		}
 	}
-	step := 7
-	if c.Thorough() {
-		step = 1
-	}
+	step := 1
 	day0 := time.Date(1970, 1, 1, 0, 0, 0, 0, time.UTC)
 	last := time.Date(2069, 12, 31, 0, 0, 0, 0, time.UTC)
 	ndays := 0
